@@ -1,0 +1,16 @@
+//go:build verif
+
+package grpcbridge
+
+import "github.com/renbou/grpcbridge/grpcadapter"
+
+// VerifConnPool exposes the router's private connection pool to the external verification harness (tag "verif" only).
+func (r *ReflectionRouter) VerifConnPool() *grpcadapter.AdaptedClientPool { return r.connpool }
+
+// VerifTargetCount returns the number of entries of the targets map (tag "verif" only).
+func (r *ReflectionRouter) VerifTargetCount() int {
+	r.mu.Lock()
+	defer r.mu.Unlock()
+
+	return len(r.targets)
+}
